@@ -135,14 +135,20 @@ PROPS['C02'] = {
     ] + [
         H('c02_debugid', 'decoder', 'quick', 900, 8,
           'decode_regular on an empty document with symbolic presence and value of debug_id and debugId'),
-    ] + line_harnesses([1, 2], [3]),
+    ] + line_harnesses([1, 2], [3]) + [
+        H('c02_source_root_n%d' % n, 'types', 'quick', 600, 8,
+          'SourceMap::prefix_source (behind set_source_root / get_source) for every ASCII source name of exactly %d bytes and the root "r": '
+          'kept as is exactly when absolute (/, http:, https:); format! stubbed, so the joined text is not observed' % n,
+          allow_uncovered=['https url', 'relative name beginning with http'] if n < 6 else None)
+        for n in (1, 5, 6, 8)
+    ],
     'assumptions': SEG_ASSUME,
     'trusted': [S1, 'reference VLQ reader of h_vlq.rs'],
     'outside': ['the outermost loop header mappings.split(\';\').zip(rangeMappings...).enumerate(): that the generated line is the number of '
                 'preceding \';\' and that each line is paired with its own rangeMappings entry (lifting the whole nest timed out at 60 min / ran out of 20 GB even for 2-byte documents)',
                 'lines longer than 3 bytes in the line-level harness; multi-field segments there (they are decided by the segment-level harnesses)',
                 'everything decided by serde_json (keys, types, null sources, numeric names, junk header + JSON)',
-                'sourceRoot joining (string formatting)', 'segments longer than 14 bytes',
+                'the text produced by sourceRoot joining (string formatting; only which sources are joined is decided)', 'segments longer than 14 bytes',
                 'decode_index with sections (sorting of sections by offset): symex did not finish in 40 min (recursive drop glue of RawSection)'],
 }
 
